@@ -322,6 +322,7 @@ func (c *MJAccordionElementComponent) Render(w io.StringWriter) error {
 		AddStyle(constants.CSSFontSize, fontSize)
 
 	if fontFamily != "" {
+		c.TrackFontFamily(fontFamily)
 		labelTag.AddStyle(constants.CSSFontFamily, fontFamily)
 	}
 
